@@ -20,7 +20,8 @@ SPEC = {
               "6": "model panics / runs out of fuel where the implementation returned a tree",
               "7": "malformed case", "8": "makeBox display->type table differs", "9": "box class table differs",
               "10": "IsInProperParents table differs",
-              "11": "two cells of a row group share a grid slot (colspan over a row-spanning cell)"},
+              "11": "two cells of a row group share a grid slot, every such pair being a column-spanning cell that runs into a cell spanning down from a row above (tree otherwise as the model says)",
+              "12": "two cells of a row group share a grid slot in another way than colspan over a row-spanning cell"},
     "theorems_for_kind": {
         "tree": "C09_create_anonymous_wf_partial / C09_table_fixup_wf / C09_slots (the model's tree is the well-formed one)",
         "corpus": "C09_create_anonymous_wf_partial / C09_slots",
@@ -39,8 +40,8 @@ MANIFEST = {
             "well-formedness specification Box/BoxWf.wf and the whole never panics and terminates (block containers: only block-level boxes or one line box; inline/line boxes: only "
             "inline-level or out-of-flow boxes; tables in wrappers with captions, column groups, row groups > rows > cells; flex/grid items "
             "blockified; text/replaced boxes childless), composition create_anonymous_wf; grid slots: totality, rowspans clipped, least free "
-            "column, no cell over a later cell's anchor column, disjointness when colspans are 1, and a proved REFUTATION of full disjointness "
-            "(colspan over a row-spanning cell, reproduced on /repo); makeBox's display switch total and correct. On every run the model's tree is "
+            "column, no cell over a later cell's anchor column, disjointness when colspans are 1, a proved REFUTATION of full disjointness "
+            "(colspan over a row-spanning cell, reproduced on /repo) and the proof that this is the ONLY way two cells share a slot; makeBox's display switch total and correct. On every run the model's tree is "
             "compared node by node with boxes.BuildFormattingStructure on generated documents and wf is evaluated on the implementation's tree.",
     "note": "C09_create_anonymous_wf is total correctness (always returns, no panic / fuel exhaustion: bounded recursion of tableBoxesChildren, "
             "wrapTable's byType lookup, InlineInBlock's line-box panic, BlockInInline's resume stacks and termination) AND well-formedness, for "
